@@ -429,7 +429,8 @@ def run_comparators(spec, acc, api):
         expr, pyf = rnd.choice(sorted(COMPARATORS.items()))
         vals = [rnd.choice([1, 2, 3, 1.5, 1.25, 1.75, 2.5, 0.5, 0.25, 10, 1.125]) for _ in range(rnd.randint(2, 9))]
         text = (f"function cmpf(a, b):\n    return {expr}\nendfunction\narr = arrayNew({', '.join(lit(v) for v in vals)})\nalias = arr\n"
-                "res = arraySort(arr, cmpf)\nreturn arrayNew(res, alias, arr)")
+                "res = arraySort(arr, cmpf)\nsnap = arrayCopy(res)\narrayPush(res, 'tail')\narraySet(alias, 0, 'head')\n"
+                "return arrayNew(snap, snap, snap, res, alias, arr, systemIs(res, arr))")
         acc.case(text, True)
         try:
             got = bare_script.execute_script(bare_script.parse_script(text), {'globals': {}})
@@ -437,8 +438,12 @@ def run_comparators(spec, acc, api):
             acc.violation('comparator-sort-raised', f'{type(exc).__name__}: {exc}\n{text}', {'text': text})
             continue
         want = sorted(vals, key=functools.cmp_to_key(lambda a, b: (pyf(a, b) > 0) - (pyf(a, b) < 0)))
-        if not (isinstance(got, list) and all(jeq(x, want) for x in got)):
+        # the returned array IS the passed array: later edits through the result, the alias or the variable are one history
+        after = ['head'] + want[1:] + ['tail']
+        if not (isinstance(got, list) and len(got) == 7 and all(jeq(x, want) for x in got[:3])):
             acc.violation('comparator-sort', f'{expr!r} on {vals!r}: result/alias/array = {got!r}, expected {want!r}', {'text': text})
+        elif not all(jeq(x, after) for x in got[3:6]) or got[6] is not True:
+            acc.violation('sort-result-is-not-the-passed-array', f'{expr!r} on {vals!r}: after pushing to the result and setting through the alias: result/alias/array = {got[3:6]!r} systemIs={got[6]!r}, expected {after!r}', {'text': text})
         acc.count('comparator_sorts')
 
 
